@@ -1,10 +1,10 @@
 """Generators (operation-weight profiles) of the history-shaped checks."""
 import hist
 
-def g(w, **kw): return lambda rng: hist.gen_history(rng, w, **kw)
+def g(w, **kw): return lambda rng: hist.gen_history(rng, w, **dict(kw, exotic=kw.get('exotic', False) and rng.random() < 0.25))
 
 # C03: edits everywhere
-C03 = g(dict(add_dim=5, del_dim=4, add_attr=14, del_attr=12, rename=8, disable=3, upd=14, rekey=2, prune=1, keygen=12, refresh=8, encaps=14, decaps=16, recaps=1, rt=2, mpk=1))
+C03 = g(dict(add_dim=5, del_dim=4, add_attr=14, del_attr=12, rename=8, disable=3, upd=14, rekey=2, prune=1, keygen=12, refresh=8, encaps=14, decaps=16, recaps=1, rt=2, mpk=1), exotic=True)
 # C04: rotation; no prune / deletions
 C04 = g(dict(add_dim=1, del_dim=0, add_attr=3, del_attr=0, rename=1, disable=0, upd=4, rekey=18, prune=0, keygen=10, refresh=16, encaps=16, decaps=20, recaps=1, rt=2, mpk=2))
 # C05: revocation
@@ -12,7 +12,7 @@ C05 = g(dict(add_dim=1, del_dim=3, add_attr=3, del_attr=8, rename=1, disable=0, 
 # C06: disabling
 C06 = g(dict(snap=0, restore=0, add_dim=1, del_dim=1, add_attr=3, del_attr=1, rename=4, disable=14, upd=12, rekey=10, prune=5, keygen=6, refresh=8, encaps=20, decaps=10, recaps=2, rt=5, mpk=5))
 # C09: everything, with invalid arguments
-C09 = g(dict(snap=2, restore=2, add_dim=6, del_dim=4, add_attr=10, del_attr=7, rename=6, disable=5, upd=10, rekey=9, prune=5, keygen=10, refresh=10, encaps=12, decaps=6, recaps=4, rt=2, mpk=2))
+C09 = g(dict(snap=2, restore=2, add_dim=6, del_dim=4, add_attr=10, del_attr=7, rename=6, disable=5, upd=10, rekey=9, prune=5, keygen=10, refresh=10, encaps=12, decaps=6, recaps=4, rt=2, mpk=2), exotic=True)
 C10 = g(dict(rfbad=6, snap=4, restore=5, add_dim=4, del_dim=3, add_attr=10, del_attr=8, rename=3, disable=10, upd=14, rekey=14, prune=4, keygen=8, refresh=12, encaps=4, decaps=2, recaps=1, rt=1, mpk=1))
 C11 = g(dict(snap=0, restore=0, add_dim=3, del_dim=1, add_attr=10, del_attr=3, rename=2, disable=2, upd=10, rekey=10, prune=3, keygen=10, refresh=10, encaps=16, decaps=8, recaps=3, rt=6, mpk=2))
 C13 = g(dict(snap=2, restore=2, add_dim=3, del_dim=2, add_attr=8, del_attr=4, rename=2, disable=4, upd=10, rekey=8, prune=3, keygen=10, refresh=8, encaps=10, decaps=10, recaps=3, rt=30, mpk=3), multibyte=True)
